@@ -114,9 +114,28 @@ def run_arch(ck, arch, prop):
                         src = "@org %d\n %s\n@defn lat1, %d\n" % (ORG, g2, v)
                     else:
                         src = "@org %d\n %s\n" % (ORG, g)
-                    sweeps.append((f, k, v, later, src))
+                    sweeps.append((f, k, v, later, src, ORG))
     if not thorough and len(sweeps) > 60000:
         sweeps = rng.sample(sweeps, 60000)
+    # relative branches at other origins, up to the very top of memory (the base of the distance is the address after the
+    # instruction, which reaches $10000 for a branch at $FFFE)
+    for f in census_forms:
+        mn = f.split()[0]
+        ms = list(asmk.NUMRE.finditer(f))
+        if mn not in REL_MN or not ms:
+            continue
+        m = ms[-1]
+        for org in (0, 2, 0x7FFE, 0x8000, 0xFFF0, 0xFFFC, 0xFFFD, 0xFFFE):
+            for d in (-130, -129, -128, -127, -2, -1, 0, 1, 126, 127, 128, 129):
+                v = org + 2 + d
+                if not (0 <= v <= 0xFFFF):
+                    continue
+                for later in (False, True):
+                    if later:
+                        src = "@org %d\n %s\n@defn lat1, %d\n" % (org, f[:m.start()] + "lat1" + f[m.end():], v)
+                    else:
+                        src = "@org %d\n %s\n" % (org, f[:m.start()] + str(v) + f[m.end():])
+                    sweeps.append((f, len(ms) - 1, v, later, src, org))
     # other origins
     for f in rng.sample(census_forms, min(len(census_forms), 300)):
         for org in (0, 0xFFF0 - 16, 0x8000):
@@ -197,7 +216,7 @@ def run_arch(ck, arch, prop):
             if r.ok:
                 ck.nontriv(form)
         else:
-            f, k, v, later, src = sweeps[i - nprog]
+            f, k, v, later, src, sorg = sweeps[i - nprog]
             form = src.split("\n")[1].strip()
             written = form.replace("lat1", str(v)).replace("0-", "-")
             ck.count("sweep:%s" % r.kind)
@@ -221,15 +240,15 @@ def run_arch(ck, arch, prop):
                 ck.sample({"arch": arch, "source": t, "bytes": r.bytes.hex(), "decoded": dec_out.get(i)})
     # ---------------------------------------------------------------- O: acceptance must be exactly the field's range
     groups = {}
-    for j, (f, k, v, later, src) in enumerate(sweeps):
-        groups.setdefault((f, k, later), []).append((v, impl[nprog + j], j))
-    for (f, k, later), items in groups.items():
+    for j, (f, k, v, later, src, sorg) in enumerate(sweeps):
+        groups.setdefault((f, k, later, sorg), []).append((v, impl[nprog + j], j))
+    for (f, k, later, sorg), items in groups.items():
         mn = f.split()[0]
         acc = [v for v, r, _ in items if r.ok]
-        if not acc:
+        if not acc and mn not in REL_MN:
             continue
         if mn in REL_MN:
-            lo, hi = ORG + 2 - 128, ORG + 2 + 127
+            lo, hi = sorg + 2 - 128, sorg + 2 + 127
         elif mn == "ldh":
             continue
         elif any(v > 255 for v in acc):
